@@ -107,7 +107,7 @@ Choose ==
                /\ WFDecl(dd) /\ facts' = dd
                /\ \E up \in BOOLEAN : spelling' = [upper |-> up]
        [] Slice = "unit" ->
-            \E u \in [kind : UnitKinds, nargs : 0..2, argdecl : {"none", "typed", "intent", "implicit", "dummyproc"},
+            \E u \in [kind : UnitKinds, nargs : 0..2, argdecl : {"none", "typed", "intent", "implicit", "dummyproc", "dummyprocopt"},
                       resform : {"none", "prefix", "result", "resultdecl", "namedecl"}, prefix : SUBSET {"pure", "elemental", "recursive"},
                       inner : 0..2, named : BOOLEAN, where : {"file", "module"}, endsp : EndSp] :
                /\ WFUnit(u) /\ Cardinality(u.prefix) <= 1
